@@ -9,22 +9,22 @@ from checks.c10 import _ts_for
 from checks.common import Case
 
 
-def _run(env, ts, kind, space, eps):
+def _run(env, ts, kind, space, eps, cache=False, std=True):
     m = D.make_method(env, ts, kind)
     if kind == "inside_outside":
-        return m.run(eps=eps, outside_standardize=True, ignore_oldest_root=False,
-                     probability_space=space, num_threads=None, cache_inside=False)
-    return m.run(eps=eps, probability_space=space, num_threads=None, cache_inside=False)
+        return m.run(eps=eps, outside_standardize=std, ignore_oldest_root=False,
+                     probability_space=space, num_threads=None, cache_inside=cache)
+    return m.run(eps=eps, probability_space=space, num_threads=None, cache_inside=cache)
 
 
-def h_agree(ctx, skel, G, kind, zero_first=True):
+def h_agree(ctx, skel, G, kind, zero_first=True, cache=False, std=True):
     from symx.dom import LogQ, Q
     ts = _ts_for(skel)
     out = {}
     for space in ("linear", "logarithmic"):
         with D.setup(ctx, ts, G, space, zero_first=zero_first, build="method") as env:
             try:
-                out[space] = (_run(env, ts, kind, space, env.eps), env)
+                out[space] = (_run(env, ts, kind, space, env.eps, cache, std), env)
             except Exception as e:
                 ctx.fail(f"no-exception:{space}", detail={"exception": repr(e)})
                 return
@@ -60,8 +60,10 @@ def cases(tier):
               ("bal4", 3), ("root_not_last", 4)]
     for sk, G in io:
         for zf in (True, False):
-            cs.append(Case(f"io:{sk}:G{G}:zf{int(zf)}", h_agree,
-                           dict(skel=sk, G=G, kind="inside_outside", zero_first=zf), weight=G))
+            for cache, std in ((False, True), (True, True), (True, False)):
+                cs.append(Case(f"io:{sk}:G{G}:zf{int(zf)}:cache{int(cache)}:std{int(std)}", h_agree,
+                               dict(skel=sk, G=G, kind="inside_outside", zero_first=zf,
+                                    cache=cache, std=std), weight=G))
     for sk, G in mx:
         for zf in (True, False):
             cs.append(Case(f"max:{sk}:G{G}:zf{int(zf)}", h_agree,
@@ -124,8 +126,11 @@ def replay(payload):
                 pri[u] = np.array(row)
             f = tsdate.inside_outside if kw["kind"] == "inside_outside" else tsdate.maximization
             try:
+                extra = dict(cache_inside=kw.get("cache", False))
+                if kw["kind"] == "inside_outside":
+                    extra["outside_standardize"] = kw.get("std", True)
                 res[space] = f(ts, mutation_rate=mu, priors=pri, eps=eps, probability_space=space,
-                               return_fit=True, return_likelihood=True)
+                               return_fit=True, return_likelihood=True, **extra)
             except Exception as e:
                 return True, f"{space} raised {e!r}"
         (tl, fl, ll), (tg, fg, lg) = res["linear"], res["logarithmic"]
